@@ -59,7 +59,10 @@ def _run_one(args):
                 out["undecided"].append(["<extract>", f"function under contract not found: {e}"])
         if sc.kind == "evaluation":
             res = sc.run(None)
+            fx = res.pop("functions", None)
             out.update(res)
+            if fx:
+                out["functions"] += fx
         else:
             res = core.explore(sc.run, sc.name, max_paths=sc.max_paths, budget_s=sc.budget_s)
             out["paths"] = res.paths
